@@ -68,6 +68,7 @@ type vWorld struct {
 	closed  uint64 // module exit code word (non-zero: closed)
 	calls   []vHostCall
 	hostRes func(index uint32, k int) uint64 // result k of the next call to imported function index
+	hostFx  func(index uint32)              // side effect of a call to imported function index on the world (may be nil)
 	// outcome
 	exitCode wazevoapi.ExitCode
 	steps    int
@@ -731,6 +732,9 @@ tailcall:
 							hc.args = append(hc.args, get(a).lo)
 						}
 						w.calls = append(w.calls, hc)
+						if w.hostFx != nil {
+							w.hostFx(idx)
+						}
 						first, rest := in.Returns()
 						k := 0
 						if first.Valid() {
